@@ -17,6 +17,8 @@ var (
 	oTRUNC  int64 = 0x200
 	oAPPEND int64 = 0x400
 	oSYNC   int64 = 0x101000
+	// syscall.EFBIG is 27 on unix and an invented application error code on windows
+	eFBIG int64 = 27
 )
 
 func setOSFlags(p *Prog) {
@@ -44,4 +46,13 @@ func setOSFlags(p *Prog) {
 	get("O_TRUNC", &oTRUNC)
 	get("O_APPEND", &oAPPEND)
 	get("O_SYNC", &oSYNC)
+	for _, pk := range p.SSA.AllPackages() {
+		if pk.Pkg != nil && pk.Pkg.Path() == "syscall" {
+			if k := pk.Const("EFBIG"); k != nil && k.Value != nil && k.Value.Value != nil {
+				if v, ok := constant.Int64Val(constant.ToInt(k.Value.Value)); ok && v != 0 {
+					eFBIG = v
+				}
+			}
+		}
+	}
 }
